@@ -39,3 +39,35 @@ package resolvers
 //@   loop 1
 //@     invariant forall k int :: { edges[k] } 0 <= k && k <= rangeindex ==> allocated(edges[k]) && edges[k].Cursor == old(lazyBugEdges[k].Cursor)
 //@     invariant forall k int :: { lazyBugEdges[k] } 0 <= k && k < len(lazyBugEdges) ==> lazyBugEdges[k] != nil && lazyBugEdges[k].Cursor == old(lazyBugEdges[k].Cursor) && lazyBugEdges[k] == old(lazyBugEdges[k])
+
+//@ func repoResolver.AllIdentities$1 with EdgeType = connections.LazyIdentityEdge
+//@ func repoResolver.ValidLabels$1   with EdgeType = models.LabelEdge
+//@ func bugResolver.Comments$1       with EdgeType = models.CommentEdge
+//@ func bugResolver.Operations$1     with EdgeType = models.OperationEdge
+//@ func bugResolver.Timeline$1       with EdgeType = models.TimelineItemEdge
+//@ func bugResolver.Actors$1         with EdgeType = models.IdentityEdge
+//@ func bugResolver.Participants$1   with EdgeType = models.IdentityEdge
+//@   props C20
+//@   nopanic
+//@   ensures [cursor] result.GetCursor() == connections.OffsetToCursor(offset)
+//@   ensures [type]   typeof(result) == type[EdgeType]
+
+//@ func repoResolver.ValidLabels$2
+//@ func bugResolver.Comments$2
+//@ func bugResolver.Operations$2
+//@ func bugResolver.Timeline$2
+//@ func bugResolver.Actors$2
+//@ func bugResolver.Participants$2
+//@   props C20
+//@   nopanic
+//@   ensures [keeps-edges] result1 == nil && result != nil && result.Edges == edges && result.PageInfo == info && result.TotalCount == totalCount
+
+//@ func repoResolver.AllIdentities$2
+//@   props C20
+//@   nopanic
+//@   requires [edges-non-nil] forall k int :: { lazyIdentityEdges[k] } 0 <= k && k < len(lazyIdentityEdges) ==> lazyIdentityEdges[k] != nil
+//@   ensures [keeps-cursors] result1 == nil ==> result != nil && len(result.Edges) == len(lazyIdentityEdges) && (forall k int :: { result.Edges[k] } 0 <= k && k < len(lazyIdentityEdges) ==> result.Edges[k] != nil && result.Edges[k].Cursor == old(lazyIdentityEdges[k].Cursor))
+//@   ensures [keeps-info]    result1 == nil ==> result.PageInfo == info && result.TotalCount == totalCount
+//@   loop 1
+//@     invariant forall j int :: { edges[j] } 0 <= j && j <= rangeindex ==> allocated(edges[j]) && edges[j].Cursor == old(lazyIdentityEdges[j].Cursor)
+//@     invariant forall j int :: { lazyIdentityEdges[j] } 0 <= j && j < len(lazyIdentityEdges) ==> lazyIdentityEdges[j] != nil && lazyIdentityEdges[j].Cursor == old(lazyIdentityEdges[j].Cursor) && lazyIdentityEdges[j] == old(lazyIdentityEdges[j])
